@@ -414,6 +414,7 @@ static double documented_scale(TasmanianSparseGrid const &g, int kind, std::vect
     }
     return s;
 }
+static double vsum_scale_of(TasmanianSparseGrid const &g){ double v = 0.0; const double *p = g.getLoadedValues(); if (p) for(size_t i=0; i<(size_t) g.getNumLoaded() * (size_t) g.getNumOutputs(); i++) v += std::fabs(p[i]); return v; }
 static std::string jspace(std::vector<int> const &sp, int d){ return jistrips(sp.data(), (int) (sp.size() / (size_t) std::max(d, 1)), d); }
 
 static std::string obs_exact(TasmanianSparseGrid const &g, unsigned seed){
@@ -553,6 +554,208 @@ static std::string obs_exact(TasmanianSparseGrid const &g, unsigned seed){
             double measure = scale; if (kind != 4) for(int j=0; j<d; j++) measure *= moment1d(kind, al, be, 0);
             add("q_wsum", jbool(std::fabs(ws - measure) <= 1.0e-9 * (wsc + std::fabs(measure))));
         }
+    }catch(std::exception &e){ add("exception", jbool(false)); }
+    return s + "}";
+}
+
+// ---------------------------------------------------------------- gradient observer (C05)
+// probe points that keep away from every node coordinate of the grid (kinks of local bases) and from the boundary
+static std::vector<double> smooth_probes(TasmanianSparseGrid const &g, int n, unsigned seed){
+    int d = g.getNumDimensions(), np = g.getNumPoints();
+    auto pts = g.getPoints();
+    std::mt19937 gen(seed);
+    std::vector<double> x;
+    TypeOneDRule r = g.getRule();
+    bool unbounded = (r == rule_gausslaguerre || r == rule_gausslaguerreodd || r == rule_gausshermite || r == rule_gausshermiteodd);
+    for(int k=0; k<n; k++){
+        for(int j=0; j<d; j++){
+            std::vector<double> c;
+            for(int i=0; i<np; i++) c.push_back(pts[(size_t) i * d + j]);
+            if (!unbounded){ // domain end points are kink candidates as well
+                std::vector<double> a, b; double lo = g.isFourier() ? 0.0 : -1.0, hi = 1.0;
+                if (g.isSetDomainTransfrom()){ g.getDomainTransform(a, b); lo = a[(size_t) j]; hi = b[(size_t) j]; }
+                c.push_back(lo); c.push_back(hi);
+            }
+            std::sort(c.begin(), c.end()); c.erase(std::unique(c.begin(), c.end(), [](double u, double v){ return std::fabs(u - v) < 1.0e-12; }), c.end());
+            if (c.size() < 2){ x.push_back(c.empty() ? 0.3 : c[0] + 0.37); continue; }
+            // pick one of the widest few cells and a point well inside it
+            std::vector<std::pair<double, size_t>> cells;
+            for(size_t i=0; i+1<c.size(); i++) cells.push_back({c[i + 1] - c[i], i});
+            std::sort(cells.rbegin(), cells.rend());
+            size_t pick = cells[gen() % std::min<size_t>(cells.size(), 4)].second;
+            double t = 0.3 + 0.4 * ((double) (gen() % 1000) / 1000.0);
+            x.push_back(c[pick] + t * (c[pick + 1] - c[pick]));
+        }
+    }
+    return x;
+}
+
+static std::string obs_grad(TasmanianSparseGrid const &g, unsigned seed){
+    // C05: differentiate() is the gradient of evaluate(): exact on the reproduced space (monomials / modes / affine functions),
+    // matches 4th order central differences of evaluate() for smooth loaded data, in the transformed coordinates (chain rule)
+    int d = g.getNumDimensions(), np = g.getNumPoints(), outs = g.getNumOutputs();
+    if (np == 0 || outs == 0 || g.isSetConformalTransformASIN()) return "\"grad\":{}";
+    int kind = 0; bool known = rule_family(g.getRule(), kind);
+    std::vector<double> ta, tb; if (g.isSetDomainTransfrom()) g.getDomainTransform(ta, tb);
+    std::string s = "\"grad\":{", note = "";
+    bool first = true;
+    auto add = [&](const char *name, std::string v){ if (!first) s += ","; first = false; s += std::string("\"") + name + "\":" + v; };
+    try{
+        TasmanianSparseGrid t; t.copyGrid(g);
+        if (t.isUsingConstruction()) t.finishConstruction();
+        if (t.getNumNeeded() > 0 && t.getNumLoaded() > 0) t.clearRefinement();
+        auto tp = t.getPoints(); int tn = t.getNumPoints();
+        if (tn == 0) return "\"grad\":{}";
+        auto xs = smooth_probes(t, 6, seed);
+        // width of the domain per dimension (for step sizes)
+        std::vector<double> width((size_t) d, 2.0);
+        for(int j=0; j<d; j++){ double lo = tp[(size_t) j], hi = tp[(size_t) j]; for(int i=0; i<tn; i++){ lo = std::min(lo, tp[(size_t) i * d + j]); hi = std::max(hi, tp[(size_t) i * d + j]); } width[(size_t) j] = std::max(hi - lo, 0.5); }
+        // (i) exact gradient of a reproduced function
+        if ((t.isGlobal() || t.isSequence()) && known){
+            auto is = t.getGlobalPolynomialSpace(true); size_t nm = is.size() / (size_t) d;
+            bool ok = true;
+            for(size_t pick=0; pick<3; pick++){
+                std::vector<size_t> ms((size_t) outs); for(int o=0; o<outs; o++) ms[(size_t) o] = (nm - 1 - ((pick * (size_t) outs + (size_t) o) * 5) % nm);
+                std::vector<double> vals((size_t) tn * outs);
+                for(int i=0; i<tn; i++) for(int o=0; o<outs; o++){ double v = 1.0; for(int j=0; j<d; j++) v *= std::pow(to_canonical(g, kind, ta, tb, j, tp[(size_t) i * d + j]), is[ms[(size_t) o] * d + j]); vals[(size_t) i * outs + o] = v; }
+                t.loadNeededValues(vals);
+                for(int k=0; k<6; k++){
+                    std::vector<double> xi(xs.begin() + (size_t) k * d, xs.begin() + (size_t) (k + 1) * d), jac;
+                    t.differentiate(xi, jac);
+                    for(int o=0; o<outs; o++) for(int j=0; j<d; j++){
+                        // d/dx_j of prod_i c_i(x_i)^{m_i} with c the canonical coordinate: chain rule factor dc/dx
+                        double dc = (to_canonical(g, kind, ta, tb, j, xi[(size_t) j] + 1.0) - to_canonical(g, kind, ta, tb, j, xi[(size_t) j]));
+                        double ex = dc, mag = 1.0;
+                        for(int i=0; i<d; i++){
+                            double c = to_canonical(g, kind, ta, tb, i, xi[(size_t) i]); int m = is[ms[(size_t) o] * d + i];
+                            ex *= (i == j) ? ((m == 0) ? 0.0 : m * std::pow(c, m - 1)) : std::pow(c, m);
+                            mag *= std::max(1.0, std::pow(std::fabs(c), m));
+                        }
+                        if (std::fabs(jac[(size_t) o * d + j] - ex) > 1.0e-7 * (std::fabs(ex) + mag * std::fabs(dc) * 10.0)) ok = false;
+                    }
+                }
+            }
+            add("exact_monomials", jbool(ok));
+        }else if (t.isLocalPolynomial() || t.isWavelet()){
+            bool applies = t.isWavelet() || (t.getOrder() != 0 && t.getRule() != rule_localp0);
+            const int *idx = t.verifLoadedIndexes() ? t.verifLoadedIndexes() : t.verifNeededIndexes();
+            if (applies && t.isLocalPolynomial()) for(int j=0; j<d; j++){ std::set<int> have; for(int i=0; i<tn; i++) have.insert(idx[(size_t) i * d + j]); if (!(have.count(0) && have.count(1) && have.count(2))) applies = false; }
+            if (applies){
+                std::vector<double> vals((size_t) tn * outs);
+                for(int i=0; i<tn; i++) for(int o=0; o<outs; o++){ double v = 0.5 * (o + 1); for(int j=0; j<d; j++) v += (1.0 + 0.25 * j + 0.5 * o) * tp[(size_t) i * d + j]; vals[(size_t) i * outs + o] = v; }
+                t.loadNeededValues(vals);
+                bool ok = true;
+                for(int k=0; k<6; k++){
+                    std::vector<double> xi(xs.begin() + (size_t) k * d, xs.begin() + (size_t) (k + 1) * d), jac;
+                    t.differentiate(xi, jac);
+                    for(int o=0; o<outs; o++) for(int j=0; j<d; j++) if (std::fabs(jac[(size_t) o * d + j] - (1.0 + 0.25 * j + 0.5 * o)) > 1.0e-8 * 10.0) ok = false;
+                }
+                add("exact_affine", jbool(ok));
+            }
+        }
+        // (ii) finite differences of evaluate() for smooth data (piece-wise constant grids are not differentiable across
+        //      cell boundaries, which do not coincide with node coordinates: their documented derivative is zero)
+        if (t.isLocalPolynomial() && t.getOrder() == 0){
+            std::vector<double> vals((size_t) tn * outs); for(size_t i=0; i<vals.size(); i++) vals[i] = 1.0 + (double) (i % 7);
+            t.loadNeededValues(vals);
+            bool ok = true;
+            for(int k=0; k<6; k++){ std::vector<double> xi(xs.begin() + (size_t) k * d, xs.begin() + (size_t) (k + 1) * d), jac; t.differentiate(xi, jac); for(auto v : jac) if (v != 0.0) ok = false; }
+            add("pwc_zero", jbool(ok));
+        }else{
+            std::vector<double> vals((size_t) tn * outs);
+            for(int i=0; i<tn; i++) for(int o=0; o<outs; o++){ double v = 0.0; for(int j=0; j<d; j++) v += std::sin((1.1 + 0.3 * o) * tp[(size_t) i * d + j] / width[(size_t) j] * 2.0 + 0.4 * j); vals[(size_t) i * outs + o] = v; }
+            t.loadNeededValues(vals);
+            bool ok = true; double worst = 0.0;
+            auto nodes = t.getPoints();
+            for(int k=0; k<6; k++){
+                std::vector<double> xi(xs.begin() + (size_t) k * d, xs.begin() + (size_t) (k + 1) * d), jac;
+                t.differentiate(xi, jac);
+                for(int j=0; j<d; j++){
+                    // the step keeps all four evaluation points inside the cell between the neighbouring node coordinates
+                    double gap = 1.0e9; for(int i=0; i<tn; i++){ double dd = std::fabs(nodes[(size_t) i * d + j] - xi[(size_t) j]); if (dd > 0) gap = std::min(gap, dd); }
+                    double h = std::min(1.0e-3 * width[(size_t) j], gap / 4.0);
+                    std::vector<double> y1, y2, y3, y4, xa = xi;
+                    xa[(size_t) j] = xi[(size_t) j] + h; t.evaluate(xa, y1); xa[(size_t) j] = xi[(size_t) j] - h; t.evaluate(xa, y2);
+                    xa[(size_t) j] = xi[(size_t) j] + 2 * h; t.evaluate(xa, y3); xa[(size_t) j] = xi[(size_t) j] - 2 * h; t.evaluate(xa, y4);
+                    for(int o=0; o<outs; o++){
+                        double fd = (8.0 * (y1[(size_t) o] - y2[(size_t) o]) - (y3[(size_t) o] - y4[(size_t) o])) / (12.0 * h);
+                        double scale = 1.0 / width[(size_t) j] + std::fabs(fd);
+                        double err = std::fabs(fd - jac[(size_t) o * d + j]) / scale;
+                        worst = std::max(worst, err);
+                        if (err > ((t.isLocalPolynomial() || t.isWavelet()) ? 1.0e-3 : 1.0e-5)) ok = false;   // piece-wise bases: the stencil may straddle an interior breakpoint of a wavelet
+                    }
+                }
+            }
+            add("finite_difference", jbool(ok));
+            char b[64]; snprintf(b, 64, "%.2e", worst); note = b;
+        }
+    }catch(std::exception &e){ add("exception", jbool(false)); }
+    return s + "},\"grad_fd_worst\":\"" + note + "\"";
+}
+
+// ---------------------------------------------------------------- transform twin observer (C10)
+static std::string obs_twin(TasmanianSparseGrid const &g, unsigned seed){
+    // C10: a grid with a linear domain transform behaves as the canonical grid composed with the documented map of its rule family
+    int d = g.getNumDimensions(), np = g.getNumPoints(), outs = g.getNumOutputs();
+    if (np == 0 || !g.isSetDomainTransfrom() || g.isSetConformalTransformASIN()) return "\"twin\":{}";
+    int kind = 0; if (!rule_family(g.getRule(), kind)) kind = 0;
+    std::vector<double> ta, tb; g.getDomainTransform(ta, tb);
+    std::string s = "\"twin\":{";
+    bool first = true;
+    auto add = [&](const char *name, std::string v){ if (!first) s += ","; first = false; s += std::string("\"") + name + "\":" + v; };
+    try{
+        TasmanianSparseGrid c; c.copyGrid(g); c.clearDomainTransform();
+        auto pt = g.getPoints(), pc = c.getPoints();
+        bool pm = (pt.size() == pc.size());
+        for(size_t i=0; pm && i<pt.size(); i++) pm = close(to_canonical(g, kind, ta, tb, (int) (i % (size_t) d), pt[i]), pc[i], 1.0e-12);
+        add("points_mapped", jbool(pm));
+        // quadrature weights and basis integrals scale by the documented factor
+        double scale = documented_scale(g, kind, ta, tb);
+        auto wt = g.getQuadratureWeights(), wc = c.getQuadratureWeights();
+        bool ws = (wt.size() == wc.size()); for(size_t i=0; ws && i<wt.size(); i++) ws = std::fabs(wt[i] - scale * wc[i]) <= 1.0e-11 * (std::fabs(wt[i]) + std::fabs(scale * wc[i])) + 1.0e-14 * scale;
+        add("weights_scale", jbool(ws));
+        if (!g.isGlobal() && !g.isFourier()){
+            std::vector<double> it((size_t) np), ic((size_t) np); g.integrateHierarchicalFunctions(it.data()); c.integrateHierarchicalFunctions(ic.data());
+            bool is = true; for(int i=0; i<np; i++) is = is && std::fabs(it[(size_t) i] - scale * ic[(size_t) i]) <= 1.0e-11 * (std::fabs(it[(size_t) i]) + std::fabs(scale * ic[(size_t) i])) + 1.0e-14 * scale;
+            add("basis_integrals_scale", jbool(is));
+            // supports scale by the Jacobian of the map
+            auto st = g.getHierarchicalSupport(), sc = c.getHierarchicalSupport();
+            bool ss = (st.size() == sc.size());
+            for(size_t i=0; ss && i<st.size(); i++){ size_t j = i % (size_t) d; double jacobian = 0.5 * (tb[j] - ta[j]); ss = close(st[i], jacobian * sc[i], 1.0e-12); }
+            add("support_scale", jbool(ss));
+        }
+        // evaluate: pull back; differentiate: chain rule
+        if (outs > 0 && g.getNumLoaded() > 0){
+            auto xs = smooth_probes(g, 5, seed);
+            bool ev = true, df = true;
+            for(int k=0; k<5; k++){
+                std::vector<double> xi(xs.begin() + (size_t) k * d, xs.begin() + (size_t) (k + 1) * d), xc((size_t) d), yt, yc, jt, jc;
+                for(int j=0; j<d; j++) xc[(size_t) j] = to_canonical(g, kind, ta, tb, j, xi[(size_t) j]);
+                g.evaluate(xi, yt); c.evaluate(xc, yc);
+                for(int o=0; o<outs; o++) ev = ev && close(yt[(size_t) o], yc[(size_t) o], 1.0e-11);
+                g.differentiate(xi, jt); c.differentiate(xc, jc);
+                for(int o=0; o<outs; o++) for(int j=0; j<d; j++){
+                    double dc = to_canonical(g, kind, ta, tb, j, xi[(size_t) j] + 1.0) - to_canonical(g, kind, ta, tb, j, xi[(size_t) j]);
+                    df = df && std::fabs(jt[(size_t) o * d + j] - dc * jc[(size_t) o * d + j]) <= 1.0e-9 * (std::fabs(jt[(size_t) o * d + j]) + std::fabs(dc * jc[(size_t) o * d + j])) + 1.0e-12 * vsum_scale_of(g);
+                }
+            }
+            add("evaluate_pullback", jbool(ev)); add("differentiate_chain_rule", jbool(df));
+        }
+        // domain predicate: accepts the points of the transformed domain, rejects points beyond its bounds
+        auto inside = g.getDomainInside();
+        bool in_ok = true, out_ok = true;
+        for(int i=0; i<np; i++){ std::vector<double> p(pt.begin() + (size_t) i * d, pt.begin() + (size_t) (i + 1) * d); bool interior = true;
+            for(int j=0; j<d; j++) if (kind != 2 && kind != 3 && (std::fabs(p[(size_t) j] - ta[(size_t) j]) < 1.0e-12 || std::fabs(p[(size_t) j] - tb[(size_t) j]) < 1.0e-12)) interior = false; // rounding at the boundary itself is excused
+            if (interior && !inside(p)) in_ok = false; }
+        if (kind != 3){
+            for(int j=0; j<d; j++){
+                std::vector<double> p(pt.begin(), pt.begin() + d);
+                double w = (kind == 2) ? 1.0 : (tb[(size_t) j] - ta[(size_t) j]);
+                p[(size_t) j] = ta[(size_t) j] - 0.01 * w; if (inside(p)) out_ok = false;
+                if (kind != 2){ p[(size_t) j] = tb[(size_t) j] + 0.01 * w; if (inside(p)) out_ok = false; }
+            }
+        }
+        add("inside_accepts", jbool(in_ok)); add("inside_rejects", jbool(out_ok));
     }catch(std::exception &e){ add("exception", jbool(false)); }
     return s + "}";
 }
@@ -968,6 +1171,8 @@ int main(int argc, char **argv){
             if (obs_mask & OBS_ROUTES) O(obs_routes(g, (unsigned) (scen * 131 + step)));
             if (obs_mask & OBS_RT) O(obs_roundtrip(g, (unsigned) (scen * 137 + step)));
             if (obs_mask & OBS_EXACT) O(obs_exact(g, (unsigned) (scen * 139 + step)));
+            if (obs_mask & OBS_GRAD) O(obs_grad(g, (unsigned) (scen * 149 + step)));
+            if (obs_mask & 64) O(obs_twin(g, (unsigned) (scen * 151 + step)));
         }catch(std::exception &e){ O(std::string("\"observer_exception\":") + jstr(e.what())); }
         obs += "}";
         fprintf(out, "{\"e\":%s,\"o\":%d,\"a\":%s,\"r\":%s,\"st\":%s,\"st2\":%s,\"obs\":%s%s}\n", jstr(cmd).c_str(), o, args.c_str(), jstr(res).c_str(),
